@@ -223,11 +223,21 @@ def build_plane(bounds, grid, hist, observe=None):
                 pl.extend(o for o in [objs[n]])
             elif op == "extl":
                 pl.extend([objs[n]])
+            elif op == "rmx":
+                # removing an object that is not in the plane is rejected and must leave the plane as it was
+                # (added after seeded defect C20_21 was missed)
+                try:
+                    pl.remove(objs[n])
+                except KeyError:
+                    pass
+                continue
             else:
                 pl.remove(objs[n])
         except Exception as e:  # noqa
             pl._verif_errors.append(f"{op} {n}: {type(e).__name__}")
-        if op != "remove":
+        if op == "rmx":
+            pass
+        elif op != "remove":
             live.append(n)
         else:
             live.remove(n)
@@ -333,6 +343,28 @@ def run_bigplane(bi, st):
                     return
 
 
+def run_crossplanes(grid, st):
+    """Two planes with different bounds in ONE process, holding the same box objects: the second must answer as if the first had
+    never existed (added after seeded defect C20_19, a cell cache shared between planes, was missed)"""
+    names = [b[0] for b in BOXES]
+    for ba, bb in itertools.permutations(BOUNDS, 2):
+        for order in (names, names[::-1]):
+            hist = tuple(("add", n) for n in order)
+            first = build_plane(ba, grid, hist)
+            for q in QUERIES[:40]:
+                if proper(q, ba):
+                    list(first[0].find(q))
+            state = build_plane(bb, grid, hist)
+            st.states += 2
+            st.transitions += 2 * len(hist)
+            st.traces += 1
+            n0 = len(st.violations)
+            check_plane(bb, grid, state, hist, st)
+            for v in st.violations[n0:]:
+                v["case"] = {"kind": "crossplanes", "grid": grid}
+                v["signature"] = v["signature"] + ":after-another-plane"
+
+
 def run_index(bounds, grid, first, depth, st):
     names = [b[0] for b in BOXES]
 
@@ -346,6 +378,7 @@ def run_index(bounds, grid, first, depth, st):
                 yield ("add", n)
                 yield ("extg", n)
                 yield ("extl", n)
+                yield ("rmx", n)
         for n in live:
             yield ("remove", n)
 
@@ -379,6 +412,7 @@ def shards(tier):
     out = [("pairs", i) for i in range(len(POOL))]
     out += [("triples", i) for i in range(len(POOL))]
     out += [("bigplane", i) for i in range(len(BIG_BOUNDS))]
+    out += [("crossplanes", g) for g in GRIDS]
     depth = 5 if tier == "quick" else 7
     for b in range(len(BOUNDS)):
         for g in GRIDS:
@@ -400,6 +434,10 @@ def run_shard(shard, tier, st):
         for j in js:
             for k in js:
                 algebra_triple(i, j, k, st)
+    elif shard[0] == "crossplanes":
+        run_crossplanes(shard[1], st)
+        if shard[1] == 1:
+            st.sample({"family": "crossplanes", "bounds_pairs": 6, "grid": 1})
     elif shard[0] == "bigplane":
         run_bigplane(shard[1], st)
         if shard[1] == 0:
@@ -417,6 +455,9 @@ def replay(case):
 
     st = Stats()
     k = case["kind"]
+    if k == "crossplanes":
+        run_crossplanes(case["grid"], st)
+        return [{"signature": v["signature"], "expected": repr(v["expected"]), "observed": repr(v["observed"])} for v in st.violations]
     if k == "bigplane":
         run_bigplane(case["bounds"], st)
         return [{"signature": v["signature"], "expected": repr(v["expected"]), "observed": repr(v["observed"])} for v in st.violations]
